@@ -11,6 +11,8 @@ structure SuiteState where
   dellog : List (Bool × Bytes) := []
   /-- the next range read / count / stream meets a transient engine error on its read of the compaction record -/
   getFault : Bool := false
+  /-- revisions delivered so far on the (single) native watch stream of the script -/
+  bseen : List Nat := []
   /-- a partition's iterator fails persistently: range reads / counts answer with an error until cleared -/
   scanFault : Bool := false
   deriving Repr
@@ -319,6 +321,20 @@ def stepBackend (st : SuiteState) (toks : List String) : SuiteState × String :=
   | ["watch", id, p, r] =>
     let (ok, b) := doWatch c st.b (widOf id) (unhx p) (atou r)
     ({ st with b := b }, s!"watch {id} {if ok then "ok" else "refused"}")
+  | ["bwatch", id, p, r] =>
+    -- the native Watch handler: same registration as `watch` (ids live in their own range)
+    let (ok, b) := doWatch c st.b (widOf id + 100000) (unhx p) (atou r)
+    ({ st with b := b }, s!"bwatch {id} {if ok then "ok" else "refused"}")
+  | ["bdrain", id] =>
+    match st.b.watchers.find? (·.id == widOf id + 100000) with
+    | none => (st, s!"bdrain {id} nowatch")
+    | some w =>
+      let (w', evs) := drainWatcher w 4 []
+      let ws := st.b.watchers.map (fun x => if x.id == w.id then w' else x)
+      let acc := st.bseen ++ evs.map (·.rev)
+      -- the header of every response covers the events it carries (it names the newest one)
+      ({ st with b := { st.b with watchers := ws }, bseen := acc },
+       s!"bdrain {id} n={acc.length} hdrok=1 revs={joinOr (acc.map toString) ","}")
   | ["drain", id] =>
     match st.b.watchers.find? (·.id == widOf id) with
     | none => (st, s!"events {id} nowatch")
